@@ -205,6 +205,8 @@ impl Policy for Corruptor {
 pub struct C03Knobs {
     pub forge: bool,
     pub sched: bool,
+    /// Every run has the group fabric and several group data messages (C04: group receive windows)
+    pub force_group: bool,
 }
 
 fn gen_key(tag: u64) -> [u8; 16] {
@@ -295,12 +297,13 @@ pub fn gen_cfg(seed: u64, knobs: &C03Knobs) -> MrpCfg {
         }
     }
     // Group data messages (source node id and destination group id in the header)
-    let with_group = tape::biased(2, 350) == 1;
+    let with_group = tape::biased(2, 350) == 1 || knobs.force_group;
     let mut group_fabric = None;
     if with_group {
         group_fabric = make_group_fabric(seed, n_nodes, 0x0101 + tape::choose(3) as u16);
         if group_fabric.is_some() {
-            for _ in 0..(1 + tape::choose(3)) {
+            let n_group = if knobs.force_group { 3 + tape::choose(6) } else { 1 + tape::choose(3) };
+            for _ in 0..n_group {
                 let node = tape::choose(n_nodes as u32) as usize;
                 let id = 100 + workloads.iter().map(|l| l.iter().map(|x| x.len()).sum::<usize>()).sum::<usize>() as u16;
                 workloads[node].push(vec![Workload {
@@ -564,6 +567,92 @@ pub struct C03Scenario {
     pub knobs: C03Knobs,
 }
 
+/// C04 over the same world: the receive windows (unicast sessions and group senders) of real
+/// stacks while forged datagrams arrive next to the authentic ones
+pub struct C04ForgedScenario;
+
+impl Scenario for C04ForgedScenario {
+    fn property(&self) -> &'static str {
+        "C04"
+    }
+    fn name(&self) -> &'static str {
+        "system-group-senders-and-forgeries"
+    }
+    fn run(&self, seed: u64) -> Outcome {
+        let knobs = C03Knobs { forge: true, sched: true, force_group: true };
+        let cfg = gen_cfg(seed, &knobs);
+        let n_nodes = cfg.workloads.len();
+        let drop_permille = cfg.net.drop_permille;
+        let mutate_permille = [150, 300, 600][tape::choose(3) as usize];
+        let run = drive_with(seed, cfg, move |fired| {
+            Box::new(Corruptor { n_nodes, mutate_permille, drop_permille, latency_us: 1_000, seen: Vec::new(), fired })
+        });
+        let mut out = Outcome::default();
+        common_counters(&run, &mut out);
+        crate::props::mrp_oracles::check_c04_sys(&run, &mut out);
+        check_c04_group_sys(&run, &mut out);
+        out.sample = Some(sample_of(&run));
+        out
+    }
+}
+
+/// Per (receiving node, group sender): an authentic, unaltered group data message whose counter
+/// is greater than every counter accepted from that sender so far is accepted - whatever forged
+/// datagrams arrived in between - and none is accepted twice.
+pub fn check_c04_group_sys(run: &MrpRun, out: &mut Outcome) {
+    let dg_by_id: BTreeMap<u64, &Dgram> = run.dgrams.iter().map(|d| (d.id, d)).collect();
+    // (receiver, sender, group session id on the wire) -> (accepted counters, maximum)
+    let mut windows: BTreeMap<(usize, usize, u16), (BTreeSet<u32>, Option<u32>)> = BTreeMap::new();
+    for (idx, ev) in run.tap.iter().enumerate() {
+        let TapEvent::Consume { id, node, modified: false, .. } = ev else {
+            continue;
+        };
+        let Some(orig) = dg_by_id.get(id) else {
+            continue;
+        };
+        let Some(plain) = &orig.plain else {
+            continue;
+        };
+        if !plain.is_group() || orig.src_inc == 0 {
+            continue;
+        }
+        let verdict = run.events.iter().filter(|e| e.tap_pos == idx + 1 && e.node == *node).find_map(|e| match &e.ev {
+            Event::Rx { verdict, .. } => Some(*verdict),
+            _ => None,
+        });
+        let w = windows.entry((*node, orig.src, plain.sess_id)).or_default();
+        let newer = w.1.map(|m| plain.ctr > m).unwrap_or(true);
+        match verdict {
+            Some(RxVerdict::Processed { .. }) | Some(RxVerdict::StandaloneAck) => {
+                out.count("c04_group_messages_accepted", 1);
+                if !w.0.insert(plain.ctr) {
+                    out.violate(
+                        "C04-accepted-twice",
+                        format!("node {node}: group message of node {} with counter {:#x} (datagram {id}) accepted a second time", orig.src, plain.ctr),
+                    );
+                }
+                if newer {
+                    w.1 = Some(plain.ctr);
+                }
+            }
+            Some(RxVerdict::Duplicate) => {
+                if newer && !w.0.contains(&plain.ctr) {
+                    out.violate(
+                        "C04-new-maximum-rejected",
+                        format!(
+                            "node {node}: authentic group message of node {} with counter {:#x} (datagram {id}), greater than every counter accepted from that sender so far ({:x?}), was classified duplicate",
+                            orig.src, plain.ctr, w.1
+                        ),
+                    );
+                } else {
+                    out.count("c04_group_true_duplicates", 1);
+                }
+            }
+            _ => {}
+        }
+    }
+}
+
 impl Scenario for C03Scenario {
     fn property(&self) -> &'static str {
         "C03"
@@ -620,12 +709,12 @@ pub fn defs() -> Vec<PropertyDef> {
         level: "exploration",
         families: vec![
             Family {
-                scenario: Box::new(C03Scenario { name: "authentic-traffic-only", knobs: C03Knobs { forge: false, sched: false } }),
+                scenario: Box::new(C03Scenario { name: "authentic-traffic-only", knobs: C03Knobs { forge: false, sched: false, force_group: false } }),
                 weight: 1,
                 fault_free: true,
             },
             Family {
-                scenario: Box::new(C03Scenario { name: "forged-and-misrouted", knobs: C03Knobs { forge: true, sched: true } }),
+                scenario: Box::new(C03Scenario { name: "forged-and-misrouted", knobs: C03Knobs { forge: true, sched: true, force_group: false } }),
                 weight: 6,
                 fault_free: false,
             },
